@@ -27,7 +27,7 @@ namespace Wp.Res.Doc
 open Wp Wp.Res
 
 inductive ImgKind where
-  | img | embed | object | background | listStyle | content | borderImage
+  | img | embed | object | background | listStyle | content | borderImage | maskBorder
   | inlineSvg      -- an `<svg>` element of the HTML document (html.py `handle_svg`): no URL of its own
   deriving Repr, BEq, DecidableEq, Inhabited
 
@@ -122,14 +122,27 @@ def localPaths (cache : Cache) (fmt : String) : List String :=
 /-- The SVG image shown by a reference (`<img>`, `<embed>`, `<object>`), if any: its content id. -/
 def svgOfRef (opts : Opts) (cache : Cache) (r : ImgRef) : Option (String × Nat) :=
   match r.kind, r.url with
-  | .img, some u | .embed, some u | .object, some u =>
+  -- an inline `<svg>` is an `SVGImage` of its own, not held by the cache (no cache key has this form: no space)
+  | .inlineSvg, _ => r.inline.map (fun c => ("inline-svg", c))
+  | _, some u =>
     if u == "" then none
     else match cache.find? (Req.key ⟨u, r.orient, r.forcedMime⟩ opts) with
       | some (some (.svg c)) => some (Req.key ⟨u, r.orient, r.forcedMime⟩ opts, c)
       | _ => none
-  -- an inline `<svg>` is an `SVGImage` of its own, not held by the cache (no cache key has this form: no space)
-  | .inlineSvg, _ => r.inline.map (fun c => ("inline-svg", c))
-  | _, _ => none
+  | _, none => none
+
+/-- The pass of `draw_stacking_context` in which the image of a reference is painted: backgrounds, border images and
+mask borders of the block-level boxes first, then the in-flow inline-level content (replaced boxes, `::before` images,
+inline `<svg>`), then the list markers (outside markers are absolutely positioned boxes). -/
+def ImgKind.paintPass : ImgKind → Nat
+  | .background | .borderImage | .maskBorder => 0
+  | .listStyle => 2
+  | _ => 1
+
+/-- The references in the order their images are painted (each reference sits in a block of its own, in document order;
+`refs` is in fetch order, which keeps the document order inside each pass). -/
+def paintOrder (refs : List ImgRef) : List ImgRef :=
+  refs.filter (·.kind.paintPass == 0) ++ refs.filter (·.kind.paintPass == 1) ++ refs.filter (·.kind.paintPass == 2)
 
 /-- `page.paint`: every SVG image shown (cache key of the `SVGImage`, content id) is drawn, in document order, with
 everything it includes (`Svg.drawObject`; the depth bound is never reached: `Wp.C20.Svg.svg_drawing_terminates`). -/
@@ -172,7 +185,7 @@ def run (d : Document) : DocOut :=
       match annotAttachments d.fetcher [] d.annotAttachments with
       | (evs, .error e) => { o with attachLog := evs, write := .error e }
       | (evs, .ok annots) =>
-        let painted := paintSvgs d.fetcher d.opts d.svgInfo cache (d.images.filterMap (svgOfRef d.opts cache))
+        let painted := paintSvgs d.fetcher d.opts d.svgInfo cache ((paintOrder d.images).filterMap (svgOfRef d.opts cache))
         let cache := painted.1
         let o := { o with attachLog := evs, annots := annots, paintLog := painted.2 }
         match metadataAttachments d.fetcher d.metaAttachments with
